@@ -284,11 +284,37 @@ def iterateFrom (paths : List Bytes) (sizes : List Nat) (fuel : Nat) (bs : Bytes
 def iterate (archive : Bytes) (paths : List Bytes) (sizes : List Nat) : List (Out (Nat × Bytes)) :=
   iterateFrom paths sizes sizes.length archive
 
-/-- `Package::files()` with the decompressor as a parameter -/
+/-- `Package::files()` with the decompressor as a parameter, for a payload that decodes completely (the all-or-nothing
+view; `filesChunked` below is the streaming one, `C07.files_eq_filesChunked` relates them) -/
 def files (decompress : Bytes → Out Bytes) (payload : Bytes) (paths : List Bytes) (sizes : List Nat) :
     Out (List (Out (Nat × Bytes))) := do
   let archive ← decompress payload
   pure (iterate archive paths sizes)
+
+/-- what a streaming decoder (`decompress_stream`: a lazy `GzDecoder` / zstd / xz / bzip2 reader over the payload) hands
+to the cpio reader: the bytes it produces before it stops, and HOW it stops — `failed`: the next `read` answers `Err`
+(corrupt or truncated frame), otherwise a clean end of stream. The codecs themselves are not modelled: `decode` is a
+parameter (the correspondence runs the real crates). -/
+structure Decoded where
+  bytes : Bytes
+  failed : Bool
+  deriving DecidableEq, Repr
+
+/-- the reader ran off the end of what the decoder produced: `UnexpectedEof` after a clean end, the decoder's own error
+otherwise — an `Err` item either way (class `eof` / `io`) -/
+def atStreamEnd {α} (failed : Bool) : Out α → Out α
+  | .err "eof" => if failed then .err "io" else .err "eof"
+  | o => o
+
+/-- `Package::files()` over a STREAMING decoder, drained up to the first error: constructing the decoder may fail
+(`decode = .err`: the codec is not compiled in — `UnsupportedCompressorType` —, zstd context); after that the items are
+those the cpio reader finds in the bytes decoded so far. Whether the decoder would fail LATER is irrelevant once the cpio
+trailer has been read (C07 `files_chunked_clean`); a stream that stops inside the archive gives the items that lie
+completely before the cut and then one error item (`files_chunked_prefix`). -/
+def filesChunked (decode : Bytes → Out Decoded) (payload : Bytes) (paths : List Bytes) (sizes : List Nat) :
+    Out (List (Out (Nat × Bytes))) := do
+  let d ← decode payload
+  pure ((iterate d.bytes paths sizes).map (atStreamEnd d.failed))
 
 /-- the header path an archive entry designates (spec side of `fileIndex`) -/
 def entryPath (paths : List Bytes) : PayloadEntry → Option Bytes
